@@ -9,9 +9,13 @@
 
   * the reader `harness/cpyx.py` (line-structured splitting, `cdef`/cast rewriting, Python's
     `ast` on each function body; symbolic execution of `apply` once per spelling; explicit
-    control-flow paths only — exceptions raised inside callees, `op`-correlations between
-    successive `if` chains, loops beyond two iterations and aliasing through containers are
-    not modelled);
+    control-flow paths only — exceptions raised inside callees (except: the first statement of a
+    `try … finally` without handlers raises, the `finally` runs, the exception propagates),
+    `op`-correlations between
+    successive `if` chains and loops beyond two iterations are not modelled; references kept in
+    C arrays / dicts / hash tables are followed through a ghost count per container, where the
+    loop "dereference every element once" is recognised by its shape and which slots of an array
+    were filled is not modelled);
   * the hand-written meaning of the C functions in `DD/CWrap.lean` (`cConst`, `cUn`, `cBin`,
     `cTer`, `cQuantSig`, `producerKind`, `isRefFn`, `isDerefFn`);
   * error guards in `apply` (`self.manager != u.manager`, `r is NULL`, …; listed in
@@ -19,7 +23,7 @@
   * nothing is executed: no statement is made about the compiled extension modules.
 
   The functions with node events that the reader could not follow are listed in
-  `Gen.cUncovered`; no theorem speaks about them.
+  `Gen.cUncovered` (at present: the `_test_*` helpers only); no theorem speaks about them.
 -/
 import DD.Doc
 import DD.CWrap
@@ -258,27 +262,66 @@ def localsOf (b : Backend) : List String :=
 * `Function.__dealloc__` gives back exactly one reference on every path that does not
   raise, except the path guarded by `self._ref == 0` (CUDD wrappers: the user already gave
   it back through `decref`);
-* `incref` / `decref` / `_incref` / `_decref` move exactly one reference.
+* `incref` / `decref` / `_incref` / `_decref` move exactly one reference;
+* references parked in a container (`vector` of `_c_compose`, the memo `table` of
+  `_compose_root` / `_compose`, `x` of `_multi_compose`, CUDD's hash table in
+  `cuddHashTableQuitZdd`): a reference moves into the container when a node the function holds
+  is stored; the loop that dereferences every element gives all of them back, once, over the
+  allocated size, and is refused on a container that merely borrows; at the end of every path a
+  container created by the function holds nothing, and a container of the caller is either left
+  alone (what was stored is handed on with it) or consumed (released and freed).
+
+A path on which the wrapper tests `x.ref <= 0` while it holds a reference on `x` (the
+`cuddRef(x); if x.ref <= 0: raise AssertionError(…)` idiom of `_compose`, `_compose_root`,
+`_c_compose`) cannot be taken and is skipped from that test on (`refNonPos`; listed by
+`deadAssertions_where`: these assertions would leak what the function holds if they fired).
+That every C array is also freed is a separate statement (`refTraces_arraysFreed`).
 
 Relative to the reader and to `producerKind` / `isRefFn` / `isDerefFn` in `DD/CWrap.lean`.
 Not modelled (hence not claimed): exceptions raised inside callees between a `ref` and its
-`deref`, references parked in containers (`_compose`, `_c_compose`, `_multi_compose`:
-see `Gen.cUncovered`), a handle that is rebound inside a loop while its node is still in a C
-array, and the interplay "`init` raised, `__dealloc__` still runs" (CUDD wrappers are guarded
+`deref` (also: `_compose` raising while the caller's recursion holds `p`), a handle that is
+rebound inside a loop while its node is still in a C array, which slots of an array were
+filled, and the interplay "`init` raised, `__dealloc__` still runs" (CUDD wrappers are guarded
 by `_ref == 0`; `sylvan.pyx` dereferences the zero-initialised node attribute).
-(`decide +kernel`: the `Decidable` instance is evaluated by the kernel only — about 460 paths.) -/
+(`decide +kernel`: the `Decidable` instance is evaluated by the kernel only — about 550 paths.) -/
 theorem refTraces_balanced :
     (Gen.cRefTraces.all fun m => methodOk (localsOf m.backend) m) = true := by decide +kernel
 
-/-- additional check: an unprotected fresh node (no reference, no handle) is never used
-after a later node-creating C call on the same path (such a call may garbage-collect) -/
+/-- additional check: an unprotected fresh node (no reference, no handle, not in a container that
+owns a reference) is never used after a later node-creating C call on the same path (such a call
+may garbage-collect), nor after a recursive dereference — of a node, or of every element of a
+container — that may have freed it; a container is not handed on after its references were given
+back, nor with a borrowed element that was left unprotected -/
 theorem refTraces_noFloatingUse :
     (Gen.cRefTraces.all fun m => m.role != .plain || m.paths.all (pathNoFloat (localsOf m.backend) m)) = true := by
   decide +kernel
 
+/-- every C array of node pointers that a path allocates is freed on that path, except on the
+paths listed in `knownArrayLeaks` by function and exception (DD/CWrapReviewed.lean:
+`BDD._multi_compose` raises `ValueError` out of the loop that fills the array; memory only, no
+node reference is involved) -/
+theorem refTraces_arraysFreed :
+    (Gen.cRefTraces.all fun m => m.role != .plain || m.paths.all fun p =>
+      pathArraysFreed (localsOf m.backend) m p ||
+      knownArrayLeaks.any fun k => k.1 == m.backend && k.2.1 == m.name && endsInRaiseOf k.2.2 p.events) = true := by
+  decide +kernel
+
+/-- the paths that are skipped because they assume `x.ref <= 0` for a node on which a reference
+is held, and that would otherwise end holding a reference, all belong to the three functions of
+the ZDD composition (an observation about the source: `reviewedDeadAssertions`) -/
+theorem deadAssertions_where :
+    (Gen.cRefTraces.all fun m => reviewedDeadAssertions.contains (m.backend, m.name) ||
+      m.paths.all fun p => !pathInfeasible (localsOf m.backend) m p) = true := by decide +kernel
+
 /-- the functions that are NOT followed by the reader (`Gen.cUncovered`, test helpers aside) are
-exactly those reviewed by hand, with the text they had when reviewed (DD/CWrapReviewed.lean) -/
+exactly those reviewed by hand, with the text they had when reviewed (DD/CWrapReviewed.lean).
+At present there is none: the seven functions that keep references in containers are followed. -/
 theorem uncovered_reviewed : Gen.cUncoveredText = reviewedUncovered := by decide
+
+/-- what is left out is the `_test_*` helpers (the reader marks them by this reason, from their name) -/
+theorem uncovered_only_tests :
+    (Gen.cUncovered.all fun u => u.reason == "test helper (not part of the wrapper API)") = true := by
+  decide
 
 /-- each function that memoizes in CUDD's computed table uses ONE tag, the same for its lookups
 and its inserts, and no two functions share a tag (a shared tag makes one operator return what the
@@ -311,6 +354,26 @@ theorem refTraces_core_covered :
       hasMethod .sylvan "BDD.apply" .plain && hasMethod .buddy "BDD.apply" .plain) = true := by
   decide
 
+def methodHas (b : Backend) (name : String) (f : CEv → Bool) : Bool :=
+  Gen.cRefTraces.any fun m => m.backend == b && m.name == name && m.role == .plain &&
+    m.paths.any fun p => p.events.any f
+
+/-- the functions that keep references in containers are followed, and the events their discipline
+hinges on were seen: the store into, and the release of, `vector` / `table`; the array handed to
+`Cudd_bddVectorCompose`; the hash table consumed by `cuddHashTableQuitZdd`; the traversal marks -/
+theorem refTraces_containers_covered :
+    (methodHas .cuddZdd "_c_compose" (fun e => match e with | .store .. => true | _ => false) &&
+     methodHas .cuddZdd "_c_compose" (fun e => match e with | .derefAll _ "Cudd_RecursiveDerefZdd" _ => true | _ => false) &&
+     methodHas .cuddZdd "_c_compose" (fun e => match e with | .free .. => true | _ => false) &&
+     methodHas .cuddZdd "_compose_root" (fun e => match e with | .derefAll _ _ "values" => true | _ => false) &&
+     methodHas .cuddZdd "_compose" (fun e => match e with | .store .. => true | _ => false) &&
+     methodHas .cuddZdd "_compose" (fun e => match e with | .load .. => true | _ => false) &&
+     methodHas .cudd "BDD._multi_compose" (fun e => match e with | .passC _ "Cudd_bddVectorCompose" => true | _ => false) &&
+     methodHas .cuddZdd "cuddHashTableQuitZdd" (fun e => match e with | .derefAll .. => true | _ => false) &&
+     methodHas .cuddZdd "_support" (fun e => match e with | .setField .. => true | _ => false) &&
+     methodHas .cuddZdd "_clear_markers" (fun e => match e with | .setField .. => true | _ => false)) = true := by
+  decide
+
 /-! ### non-vacuity -/
 
 -- the evaluator distinguishes connectives: a swapped branch would be caught
@@ -332,6 +395,77 @@ example : runPath [] false false []
     [.produce 0 "Dddmp_cuddBddLoad" [], .wrap 0, .deref 0 "Cudd_RecursiveDeref", .retHandle] = .ok := by decide
 example : runPath [] true false []
     [.produce 0 "Cudd_bddAnd" [], .produce 1 "Cudd_bddOr" [], .wrap 0, .retHandle] ≠ .ok := by decide
-example : (Gen.cRefTraces.length ≥ 100) = true := by decide
+example : (Gen.cRefTraces.length ≥ 100) = true := by decide +kernel
+
+/-! #### references kept in containers -/
+
+-- the shape of `_c_compose`: fill the array, call, protect the result, release the array, free it
+example : runPath ["_compose_root"] true false []
+    [.alloc 0 "PyMem_Malloc" "n", .param 1 "g.node", .ref 1 "cuddRef", .store 0 1,
+     .param 2 "u.node", .passC 0 "_compose_root", .produce 3 "_compose_root" [2],
+     .ref 3 "cuddRef", .derefAll 0 "Cudd_RecursiveDerefZdd" "n", .deref 3 "cuddDeref",
+     .free 0 "PyMem_Free", .wrap 3, .retHandle] = .ok := by decide
+-- seeded C19e: without `cuddRef(r)` … `cuddDeref(r)` the result floats while the vector is released
+-- (balanced, but refused by the floating-node rule: the result may be one of the released nodes)
+example : runPath ["_compose_root"] false false []
+    [.alloc 0 "PyMem_Malloc" "n", .param 1 "g.node", .ref 1 "cuddRef", .store 0 1,
+     .param 2 "u.node", .passC 0 "_compose_root", .produce 3 "_compose_root" [2],
+     .derefAll 0 "Cudd_RecursiveDerefZdd" "n", .free 0 "PyMem_Free", .wrap 3, .retHandle] = .ok := by decide
+example : runPath ["_compose_root"] true false []
+    [.alloc 0 "PyMem_Malloc" "n", .param 1 "g.node", .ref 1 "cuddRef", .store 0 1,
+     .param 2 "u.node", .passC 0 "_compose_root", .produce 3 "_compose_root" [2],
+     .derefAll 0 "Cudd_RecursiveDerefZdd" "n", .free 0 "PyMem_Free", .wrap 3, .retHandle]
+    = .bad "unprotected node used after a node-creating call or a recursive dereference" 3 := by decide
+-- a reference stored into a container and never given back
+example : runPath [] false false []
+    [.alloc 0 "PyMem_Malloc" "n", .param 1 "g.node", .ref 1 "cuddRef", .store 0 1,
+     .free 0 "PyMem_Free", .retHandle]
+    = .bad "path ends while a container of this function still holds references" 0 := by decide
+-- the memo was handed to the recursion and is dropped without releasing what it may hold
+example : runPath ["_compose"] false true []
+    [.param 0 "u", .cnew 1 "dict", .passC 1 "_compose", .produce 2 "_compose" [0], .retNode 2] ≠ .ok := by
+  decide
+-- every element is dereferenced although the container only borrows them (no `cuddRef` before the store)
+example : runPath [] false false []
+    [.alloc 0 "PyMem_Malloc" "n", .param 1 "g.node", .store 0 1,
+     .derefAll 0 "Cudd_RecursiveDerefZdd" "n", .free 0 "PyMem_Free", .retHandle] ≠ .ok := by decide
+-- released twice; released over a different bound; used after free; a callee releasing the caller's memo
+example : runPath [] false false []
+    [.alloc 0 "PyMem_Malloc" "n", .derefAll 0 "Cudd_RecursiveDerefZdd" "n",
+     .derefAll 0 "Cudd_RecursiveDerefZdd" "n", .free 0 "PyMem_Free", .retHandle] ≠ .ok := by decide
+example : runPath [] false false []
+    [.alloc 0 "PyMem_Malloc" "n", .derefAll 0 "Cudd_RecursiveDerefZdd" "n - 1", .free 0 "PyMem_Free",
+     .retHandle] ≠ .ok := by decide
+example : runPath [] false false []
+    [.alloc 0 "PyMem_Malloc" "n", .free 0 "PyMem_Free", .param 1 "u", .store 0 1, .retHandle] ≠ .ok := by decide
+example : runPath [] false true []
+    [.cparam 0 "table", .derefAll 0 "Cudd_RecursiveDerefZdd" "values", .retNull] ≠ .ok := by decide
+-- an element loaded from a container is gone once the container's references were given back
+example : runPath [] true true []
+    [.cparam 0 "hash", .load 1 0, .derefAll 0 "Cudd_RecursiveDerefZdd" "n", .free 0 "FREE", .retNode 1] ≠ .ok := by
+  decide
+-- storing into the caller's memo hands the reference on (the shape of the end of `_compose`)
+example : runPath [] true true []
+    [.cparam 0 "table", .produce 1 "cuddZddIte" [], .ref 1 "cuddRef", .ref 1 "cuddRef", .store 0 1,
+     .deref 1 "cuddDeref", .retNode 1] = .ok := by decide
+-- … but not without the second `cuddRef`
+example : runPath [] true true []
+    [.cparam 0 "table", .produce 1 "cuddZddIte" [], .ref 1 "cuddRef", .store 0 1,
+     .deref 1 "cuddDeref", .retNode 1] ≠ .ok := by decide
+-- an array that is not freed is reported apart from the references
+example : runPath [] false false [] [.alloc 0 "PyMem_Malloc" "n", .raise "ValueError"] = .arrayLeak 0 := by
+  decide
+-- `x.ref <= 0` is only impossible while a reference on `x` is held
+example : runPath [] false false []
+    [.produce 0 "cuddZddIte" [], .ref 0 "cuddRef", .refNonPos 0, .raise "AssertionError"] = .ok := by decide
+example : runPath [] false false []
+    [.produce 0 "cuddZddIte" [], .ref 0 "cuddRef", .deref 0 "cuddDeref", .ref 0 "cuddRef",
+     .deref 0 "cuddDeref", .ref 0 "cuddRef", .raise "AssertionError"] ≠ .ok := by decide
+-- a node stored into a field other than the collision chain is not understood
+example : runPath [] false false [] [.param 0 "u", .param 1 "v", .setField 0 "T" 1, .retHandle] ≠ .ok := by
+  decide
+-- the followed functions are there
+example : ((Gen.cRefTraces.filter fun m => m.paths.any fun p => p.events.any CEv.isContEv).length ≥ 7) = true := by
+  decide +kernel
 
 end DD
